@@ -46,6 +46,10 @@ pub enum Ev {
     BogusBlock { unauth: bool, payload: Payload },
     /// hostile transaction from the edit catalogue
     HostileTx { edit: u8 },
+    /// a two-block fork from the hostile peer: a valid sibling of the node's tip and a child of it
+    /// carrying a catalogue transaction (e.g. a re-spend of an output spent in the common history):
+    /// the longer fork triggers a reorganisation that fails at its second block
+    HostileFork { edit: u8 },
     /// a correctly signed transaction of arbitrary shape (type x slip counts x slip types), see
     /// `adversary::shape_tx`
     ShapeTx { unauth: bool, code: u64 },
@@ -318,6 +322,57 @@ pub fn run_case(case: &Case, prefix: &Built) -> (Vec<(String, String)>, Info) {
                 if let Some(tx) = edited_tx(e, &ectx) {
                     call!(n, format!("step {step}"), via, true, n.net_event(NetworkEvent::IncomingNetworkMessage { peer_index: HOSTILE, buffer: Message::Transaction(tx).serialize() }));
                     pump_all!(n, via, true);
+                }
+            }
+            Ev::HostileFork { edit } => {
+                info.hostile_events += 1;
+                let via = "fetched_fork:valid_sibling+invalid_child";
+                let (tip_id, tip_hash) = n.tip();
+                let tb = match builder.chain.get_latest_block() {
+                    Some(b) if b.hash == tip_hash && b.id > 1 => b.clone(),
+                    _ => continue,
+                };
+                let creator = key(5);
+                let ts = tb.timestamp + 40 + salt % 9;
+                // sibling of the tip (built on the tip's parent), then its child with the bad transaction
+                let gt = block_on(builder.mine_gt(tb.previous_block_hash, &creator, 6_000 + salt));
+                let sib = match block_on(builder.make_block_as(&creator, tb.previous_block_hash, ts, vec![carrier_tx(&creator, ts)], gt)) {
+                    Ok(b) => b,
+                    Err(_) => continue,
+                };
+                if res_str(&block_on(builder.add(sib.clone()))) != "added_side" {
+                    continue;
+                }
+                let (spent, expired) = spent_and_expired(&builder, tip_id + 1);
+                let ectx = EditCtx { node: &builder, attacker: 3, victim: 2, for_block_id: tip_id + 1, ts: ts + 300, spent: &spent, expired: &expired, offchain: &[] };
+                const KINDS: [TxEdit; 4] = [TxEdit::SpentInput, TxEdit::NonExistentInput, TxEdit::ForeignOnlyInput, TxEdit::Overspend];
+                let bad = match edited_tx(KINDS[*edit as usize % KINDS.len()], &ectx) {
+                    Some(t) => t,
+                    None => continue,
+                };
+                let gt2 = block_on(builder.mine_gt(sib.hash, &creator, 6_500 + salt));
+                let child = match block_on(builder.make_block_as(&creator, sib.hash, ts + 300, vec![bad], gt2)) {
+                    Ok(b) => b,
+                    Err(_) => continue,
+                };
+                info.tags.insert("hostile_two_block_fork".into());
+                for blk in [&sib, &child] {
+                    call!(n, format!("step {step}"), via, true, n.net_event(NetworkEvent::IncomingNetworkMessage { peer_index: HOSTILE, buffer: Message::BlockHeaderHash(blk.hash, blk.id).serialize() }));
+                    n.take_fetches();
+                    call!(n, format!("step {step}"), via, true, n.net_event(NetworkEvent::BlockFetched { block_hash: blk.hash, block_id: blk.id, peer_index: HOSTILE, buffer: blk.serialize_for_net(BlockType::Full) }));
+                    pump_all!(n, via, true);
+                }
+                if v.is_empty() && n.tip().1 == child.hash {
+                    // the catalogue transaction was valid on that branch (e.g. the output it re-spends
+                    // was spent by the tip block only): a legitimate, longer fork. Builder and twin get it too
+                    let _ = block_on(builder.add(child.clone()));
+                    for blk in [&sib, &child] {
+                        let _ = twin.n.net_event(NetworkEvent::IncomingNetworkMessage { peer_index: HONEST, buffer: Message::BlockHeaderHash(blk.hash, blk.id).serialize() });
+                        twin.n.take_fetches();
+                        let _ = twin.n.net_event(NetworkEvent::BlockFetched { block_hash: blk.hash, block_id: blk.id, peer_index: HONEST, buffer: blk.serialize_for_net(BlockType::Full) });
+                        let _ = twin.n.pump();
+                    }
+                    info.tags.insert("hostile_fork_was_valid_and_adopted".into());
                 }
             }
             Ev::ShapeTx { unauth, code } => {
@@ -610,6 +665,7 @@ pub fn arb_ev() -> impl Strategy<Value = Ev> {
         4 => (any::<bool>(), arb_payload()).prop_map(|(unauth, payload)| Ev::BogusBlock { unauth, payload }),
         2 => any::<u8>().prop_map(|edit| Ev::HostileTx { edit }),
         3 => (any::<bool>(), any::<u64>()).prop_map(|(unauth, code)| Ev::ShapeTx { unauth, code }),
+        2 => any::<u8>().prop_map(|edit| Ev::HostileFork { edit }),
         1 => (any::<bool>(), any::<u8>(), any::<u8>()).prop_map(|(unauth, len, seed)| Ev::Garbage { unauth, len, seed }),
         1 => any::<u8>().prop_map(|which| Ev::ConnEvent { which }),
         1 => any::<u8>().prop_map(|key_sel| Ev::NewConnection { key_sel }),
@@ -639,7 +695,7 @@ pub fn prefix() -> Built {
 }
 
 pub fn run(ctx: &mut Ctx) {
-    ctx.rule = "a node built from the real routing, verification, consensus and mining threads holding a 7-block chain, with an honest authenticated peer, a hostile authenticated peer and a hostile peer that never completed the handshake; generated sequences of 3..40 events: decodable messages of every tag from either hostile peer (generated with the C09 value generators: blocks, transactions, handshake messages, chain requests with arbitrary fork ids, ghost-chain records and requests, services, API messages, key lists), key-list floods past the rate limit, bogus block announcements whose fetch is answered with garbage / truncated / empty buffers, blocks for another hash, blocks with header lies, catalogue transactions or an in-block double spend, hostile catalogue transactions, undecodable bytes, connection events, interleaved with honest transactions and honest next blocks from the honest peer, timer ticks and explicit channel pumping. oracle: every handler invocation (network event, each internal channel event, timers) returns - a panic is a violation keyed by panic site and input kind; block processing stays under 1e5 wind/unwind steps (hook H1); differential: a twin node that receives only the honest sub-sequence ends with the same tip, utxoset, pooled honest transactions and honest-peer status. In one case of five the node under test is a lite (SPV) node; a lite node trusts its peer by design, so only the panic / step-bound oracle applies there. evaluations = handler invocations. non-trivial = sequence mixes hostile and honest events; distinct by case digest".into();
+    ctx.rule = "a node built from the real routing, verification, consensus and mining threads holding a 7-block chain, with an honest authenticated peer, a hostile authenticated peer and a hostile peer that never completed the handshake; generated sequences of 3..40 events: decodable messages of every tag from either hostile peer (generated with the C09 value generators: blocks, transactions, handshake messages, chain requests with arbitrary fork ids, ghost-chain records and requests, services, API messages, key lists), key-list floods past the rate limit, bogus block announcements whose fetch is answered with garbage / truncated / empty buffers, blocks for another hash, blocks with header lies, catalogue transactions or an in-block double spend, two-block forks (a valid sibling of the tip and an invalid child of it, so that a reorganisation fails part-way), hostile catalogue transactions, undecodable bytes, connection events, interleaved with honest transactions and honest next blocks from the honest peer, timer ticks and explicit channel pumping. oracle: every handler invocation (network event, each internal channel event, timers) returns - a panic is a violation keyed by panic site and input kind; block processing stays under 1e5 wind/unwind steps (hook H1); differential: a twin node that receives only the honest sub-sequence ends with the same tip, utxoset, pooled honest transactions and honest-peer status. In one case of five the node under test is a lite (SPV) node; a lite node trusts its peer by design, so only the panic / step-bound oracle applies there. evaluations = handler invocations. non-trivial = sequence mixes hostile and honest events; distinct by case digest".into();
     let pre = prefix();
     let strat = (proptest::collection::vec(arb_ev(), 3..40), prop_oneof![4 => Just(false), 1 => Just(true)]).prop_map(|(events, lite)| Case { events, lite });
     let cases = ctx.tier.pick(500u32, 20_000);
